@@ -22,6 +22,14 @@ def check(ctx):
     ctx.rule("R16.6", "the adversary sees concat(Y_hat, Y) exactly when pass_y_ is set (equalized odds)")
     ctx.rule("R16.7", "the two back ends agree on the update rule")
     ctx.guard(_pass_y_table, ctx)
+    # the pass_y_ table and alpha are read from the estimator's configuration: the public classes must hand their `constraints`,
+    # `alpha` ... to the base class unchanged (shared with C19 R19.8)
+    ctx.rule("R16.8", "the adversarial estimators store every constructor argument under its own name (the subclasses forward all of "
+                      "them to the base class), so the constraint and alpha the caller chose are the ones the update uses")
+    from .c19 import _ctor_verbatim
+    from .common import M_ADV
+    adv = [M_ADV + ":_AdversarialFairness", M_ADV + ":AdversarialFairnessClassifier", M_ADV + ":AdversarialFairnessRegressor"]
+    ctx.aliased({"R19.8": "R16.8"}, _ctor_verbatim, ctx, adv, adv, 3)
     sig_by_engine = {}
     for mod, cls, lib in ENGINES:
         A = Analysis(ctx)
